@@ -109,7 +109,7 @@ def build_flavour(fl, verbose=False):
            "cxxflags = -std=c++17 -Wall -Wextra -Wno-unused-parameter " + cxxflags + " " + inc,
            "ldflags = " + spec["flags"] + " -L" + CONDA_LIB + " -Wl,-rpath," + CONDA_LIB,
            "rule cc", "  command = $cxx $cxxflags -MMD -MF $out.d -c $in -o $out", "  depfile = $out.d", "  deps = gcc",
-           "rule link", "  command = $cxx $ldflags -o $out $in -lxml2 -lz"]
+           "rule link", "  command = $cxx $ldflags -pthread -o $out $in -lxml2 -lz"]
     objs = []
     for s in srcs:
         o = "obj/" + s.replace(".cpp", ".o")
